@@ -266,6 +266,16 @@ func (routerNode *RouterNode) FindNearest(paths []string, method string, sortRou
 			if sortRouter && !strings.EqualFold(c.HttpMethod, tmpMethod) {
 				continue
 			}
+			if !sortRouter && len(c.Children) == 0 {
+				// several children can carry this path (one route per verb, a pure group): go on in the
+				// one that already is a group, so that one path prefix gets exactly one group
+				for _, o := range cur.Children[j+1:] {
+					if o.Path == c.Path && len(o.Children) != 0 {
+						c = o
+						break
+					}
+				}
+			}
 			i++
 			if i == ns {
 				return cur, i - 1
